@@ -66,7 +66,38 @@ func vfc37Times(rng *rand.Rand, maxN int) ([]int64, string) {
 			t += 300000 + rng.Int63n(900001)
 		}
 	}
-	return ts, fmt.Sprintf("%s/n=%d", mode, n)
+	snap := vfc37Snap(rng, ts)
+	return ts, fmt.Sprintf("%s/n=%d/snap=%s", mode, n, snap)
+}
+
+// vfc37Snap moves some samples exactly onto downsampling window edges (last / first millisecond of a 5m window,
+// which covers every 1h edge too, and +-1 ms around them). Timestamps stay strictly increasing.
+func vfc37Snap(rng *rand.Rand, ts []int64) string {
+	const step = int64(300000)
+	mode := vfkit.Pick(rng, []string{"none", "none", "window-ends", "edges"})
+	if mode == "none" {
+		return mode
+	}
+	for i := range ts {
+		w := ts[i] / step
+		var c int64
+		switch mode {
+		case "window-ends":
+			if (i+1 < len(ts) && ts[i+1]/step == w) || rng.Intn(2) == 0 {
+				continue
+			}
+			c = w*step + step - 1
+		default:
+			if rng.Intn(8) != 0 {
+				continue
+			}
+			c = vfkit.Pick(rng, []int64{w*step + step - 1, w*step + step - 2, w * step, w*step + 1, w*step + step})
+		}
+		if (i == 0 || c > ts[i-1]) && (i+1 == len(ts) || c < ts[i+1]) && c >= 0 {
+			ts[i] = c
+		}
+	}
+	return mode
 }
 
 // vfc37GaugeValues: integers in [-1000,1000] or multiples of 1/8 so that every sum is exact in float64.
@@ -280,6 +311,18 @@ func TestVF_C37(t *testing.T) {
 		rng := r.Rand(c)
 		r.Guard(c, "counter-downsampling", nil, func() { vfc37Case(r, c, rng) })
 	}
+	// Round 2: concurrent phase - several different series are downsampled at the same time (GOMAXPROCS 1,2,4,16 cycled),
+	// every result must satisfy the same oracle; the race detector watches the shared state of the package.
+	nConc := r.N(32, 600)
+	for c := n; c < n+nConc; c++ {
+		if !r.Want(c) {
+			continue
+		}
+		rng := r.Rand(c)
+		procs := vfc37Procs[c%len(vfc37Procs)]
+		r.Guard(c, "concurrent-counter-downsampling", map[string]any{"gomaxprocs": procs}, func() { vfc37ConcurrentCase(r, c, rng, procs) })
+	}
+	r.Extra("concurrent_phase_cases", nConc)
 }
 
 func vfc37Case(r *vfkit.Run, c int, rng *rand.Rand) {
@@ -538,6 +581,18 @@ func TestVF_C38(t *testing.T) {
 		rng := r.Rand(c)
 		r.Guard(c, "re-downsampling", nil, func() { vfc38Case(r, c, rng) })
 	}
+	// Round 2: block level - the real Downsample() on an in-memory 5m block whose series mix AggrChunks with 0..3 stray
+	// non-empty plain XOR chunks and empty XOR chunks; totals of the written 1h block must equal the input's.
+	nBlock := r.N(150, 4000)
+	dir := t.TempDir()
+	for c := n; c < n+nBlock; c++ {
+		if !r.Want(c) {
+			continue
+		}
+		rng := r.Rand(c)
+		r.Guard(c, "block-level-re-downsampling", nil, func() { vfc38BlockCase(r, c, rng, dir) })
+	}
+	r.Extra("block_level_cases", nBlock)
 }
 
 func vfc38Case(r *vfkit.Run, c int, rng *rand.Rand) {
